@@ -29,6 +29,7 @@ class Transfer:
         self.transfer_id: UUID = transfer_id
         self.chunks: Dict[int, bytes] = {}
         self.expected_size: Optional[int] = None
+        self.expected_chunks: Optional[int] = None
         self.size_known = asyncio.Future()
         self.error_code: Union[int] = 0
         self._future: asyncio.Future[Transfer] = asyncio.Future()
@@ -143,7 +144,10 @@ class TransferManager:
         packet_id: int = transfer_block["Packet"]
         packet_data = transfer_block["Data"]
         transfer.chunks[packet_id] = packet_data
-        if transfer_block["Status"] == TransferStatus.DONE and not transfer.done():
+        # We may be waiting on earlier packets that were reordered, so we can't end immediately.
+        if transfer_block["Status"] == TransferStatus.DONE:
+            transfer.expected_chunks = packet_id + 1
+        if not transfer.done() and len(transfer.chunks) == transfer.expected_chunks:
             transfer.mark_done()
 
     def _handle_transfer_info(self, msg: Message, transfer: Transfer):
